@@ -251,15 +251,21 @@ package heapq
 //@   loop 1: invariant count: ncalls(f) == old(ncalls(f)) + it1
 //@   loop 1: invariant args: forall i int :: 0 <= i && i < it1 ==> callarg(f, old(ncalls(f)) + i) == q.data[i] && callret(f, old(ncalls(f)) + i)
 //@
-// Sort: a heap under the reversed comparison over the caller's slice, popped until empty (every Pop moves the greatest
-// remaining element to the end of the shrinking heap). Proved here: no panic, termination, nothing outside vs is
-// written. "Sorted permutation" is a bounded stand-in: the loop argument needs that the elements Pop leaves in the
-// heap were in it before, and the heap contracts state that for the multiset only.
+// Sort: a heap under the reversed comparison over the caller's slice, popped until empty: every Pop moves the greatest
+// remaining element to the end of the shrinking heap. Proved: the slice ends up sorted under cmp (the part of vs
+// beyond the heap is sorted and everything still in the heap is not above it: Pop returns the front, which is not
+// below the new front, which is not below anything left in the heap), no panic, termination, nothing outside vs is
+// written. That the result is a permutation of the input is a bounded stand-in (Pop and NewWithData keep the
+// multiset of the heap, proved; carrying that to the whole slice needs a split lemma for multisets of ranges).
 //@ func Sort
 //@   role cmp ord
 //@   ensures outside: unchanged_outside(vs)
+//@   ensures [C05] sorted: forall a int, b int :: {vs[a], vs[b]} 0 <= a && a < b && b < len(vs) ==> ord(cmp, vs[a], vs[b]) <= 0
 //@   modifies elems(vs), rep
 //@   loop 1: invariant frame: q != nil && fresh(q) && q.data.base == vs.base && q.data.off == vs.off && len(q.data) <= len(vs) && unchanged_outside(vs) && other_arrays_unchanged(vs)
-//@   loop 1: invariant [C05] heap: heapOK(q)
+//@   loop 1: invariant [C05] heap: heapOK(q) && q.cmp == rcmp
+//@   loop 1: invariant [C05] tail: forall a int, b int :: {vs[a], vs[b]} len(q.data) <= a && a < b && b < len(vs) ==> ord(cmp, vs[a], vs[b]) <= 0
+//@   loop 1: invariant [C05] bound: forall j int, a int :: {vs[j], vs[a]} 0 <= j && j < len(q.data) && len(q.data) <= a && a < len(vs) ==> ord(cmp, vs[j], vs[a]) <= 0
 //@   loop 1: invariant [C06] tracked: trk(q, 0)
 //@   loop 1: decreases len(q.data)
+//@   at after "q.Pop()": apply [C05] rootMin(q)
